@@ -133,6 +133,56 @@ fn check_case(rep: &mut Report, text: &str, vm: &pest_vm::Vm, rule: &str, input:
     }
 }
 
+/// The detail switch and the call limit are two process-wide settings: flipping one from another thread may not
+/// change the other. The main thread sets a limit of 10 calls and parses an input that needs more (must end in the
+/// limit error), then lifts the limit and parses again (must match), while a second thread flips the detail switch as
+/// fast as it can. Every parse reads both settings once when its state is built, so each outcome is determined.
+fn settings_race(rep: &mut Report, args: &Args) {
+    let text = "list = { item* }\nitem = { \"a\" }\n";
+    let Ok((_, opt)) = read_grammar(text) else { return };
+    let vm = pest_vm::Vm::new(opt);
+    let input = "aaaaaaaaaaaaaaaa";
+    let stop = std::sync::atomic::AtomicBool::new(false);
+    let flips = std::sync::atomic::AtomicU64::new(0);
+    let rounds: u64 = if args.thorough { 200_000 } else { 20_000 };
+    let mut bad: Option<Value> = None;
+    std::thread::scope(|sc| {
+        sc.spawn(|| {
+            let mut on = false;
+            while !stop.load(std::sync::atomic::Ordering::Relaxed) {
+                on = !on;
+                pest::set_error_detail(on);
+                flips.fetch_add(1, std::sync::atomic::Ordering::Relaxed);
+            }
+            pest::set_error_detail(false);
+        });
+        for i in 0..rounds {
+            pest::set_call_limit(std::num::NonZeroUsize::new(10));
+            let limited = match vm.parse("list", input) {
+                Ok(_) => "Ok".to_string(),
+                Err(e) => e.variant.message().to_string(),
+            };
+            pest::set_call_limit(None);
+            let free = vm.parse("list", input).is_ok();
+            if !limited.contains("call limit") || !free {
+                bad = Some(json!({"property":"C15","config":config_name(),"kind":"settings_race","grammar":text,"rule":"list","input":input,"round":i,
+                    "expected":"under set_call_limit(10) the parse ends in the call-limit error, without a limit it matches, whatever another thread does to set_error_detail",
+                    "observed":{"under_limit_10": limited, "without_limit_matches": free}}));
+                break;
+            }
+            rep.count("evaluations");
+        }
+        stop.store(true, std::sync::atomic::Ordering::Relaxed);
+    });
+    pest::set_call_limit(None);
+    pest::set_error_detail(false);
+    rep.add("settings_race_detail_flips_by_the_other_thread", flips.load(std::sync::atomic::Ordering::Relaxed));
+    rep.add("settings_race_rounds", rounds);
+    if let Some(w) = bad {
+        rep.violation(w);
+    }
+}
+
 pub fn run(args: &Args) {
     let mut rep = Report::new(args);
     if let Some(path) = &args.replay {
@@ -144,6 +194,9 @@ pub fn run(args: &Args) {
         }
         rep.finish(args);
         return;
+    }
+    if args.shard < 4 {
+        settings_race(&mut rep, args);
     }
     let mut rng = Rng::new(args.seed, "c15", args.shard);
     let n_grammars = args.budget(12_000, 2_000_000);
